@@ -81,16 +81,13 @@ Definition read_over (buf : list N) (bytes : list N) (off : N) : list N :=
 Definition buf_entry (buf : list N) : res entry :=
   match dec_entry buf with Some e => Ok e | None => Err E_MODEL end.
 
-(* all complete 6-byte entries of a byte string *)
-Fixpoint chunk6 (fuel : nat) (b : list N) : list entry :=
-  match fuel with
-  | O => []
-  | S k => match dec_entry (firstn 6 b) with
-           | Some e => e :: chunk6 k (skipn 6 b)
-           | None => []
-           end
+(* all complete 6-byte entries of a byte string (what checkIndex's read() loop sees) *)
+Fixpoint entries_of (b : list N) : list entry :=
+  match b with
+  | a :: b :: c :: d :: e :: f :: r =>
+      mkE (a * 256 + b) (c * 16777216 + d * 65536 + e * 256 + f) :: entries_of r
+  | _ => []
   end.
-Definition entries_of (b : list N) : list entry := chunk6 (length b) b.
 
 (* ---------- metadata: freezer_meta.go freezerTableMeta ---------- *)
 Record meta := mkMeta { mver : N; mvtail : N; mflush : N }.
@@ -211,6 +208,10 @@ Section Model.
 Variable maxsz : N.                               (* maxFileSize *)
 Variable encode : list N -> list N.               (* snappy.Encode, or id for noSnappy tables *)
 Variable decode : list N -> option (list N).      (* snappy.Decode *)
+(* [clamp = true] is the current code: repair() clamps a virtual tail that points beyond the
+   recovered head (commit 9df0e54227).  [clamp = false] is the code before that repair, kept
+   to document the defect this model found (Properties/C24.v, C24_reopen_ok_unclamped_refuted). *)
+Variable clamp : bool.
 
 (* ---------- doSync (freezer_table.go:1307): index.Sync, head.Sync, setFlushOffset(size, true) ---------- *)
 Definition sync_index (t : table) : table := w_index t (f_sync (t_index t)).
@@ -455,7 +456,8 @@ Definition preopen (t : table) : res table :=
   Ok (open_append t2 (t_head t2)).
 
 (* ---------- newTable + repair (freezer_table.go:136-394), read-write mode ---------- *)
-Definition open_table (index : file) (data : list (N * file)) (m : option meta) : res table :=
+(* first part: newMetadata, the initial zero entry, the size%6 trim, repairIndex *)
+Definition open_repair_index (index : file) (data : list (N * file)) (m : option meta) : table :=
   (* newMetadata: an empty metadata file is initialised with {v2, 0, 0} and fsync'ed *)
   let m0 := match m with Some x => x | None => mkMeta 2 0 0 end in
   let t0 := mkT 0 0 0 0 0 0 (mver m0) [] index data (mkMeta 2 (mvtail m0) (mflush m0)) (mkMeta 2 (mvtail m0) (mflush m0)) in
@@ -463,7 +465,10 @@ Definition open_table (index : file) (data : list (N * file)) (m : option meta) 
   let t1 := if size0 =? 0 then w_index t0 (f_write (t_index t0) (repeat 0 6)) else t0 in
   let overflow := size0 mod 6 in
   let t2 := if overflow =? 0 then t1 else w_index t1 (f_trunc (t_index t1) (size0 - overflow)) in
-  let t3 := repair_index t2 in
+  repair_index t2.
+
+Definition open_table (index : file) (data : list (N * file)) (m : option meta) : res table :=
+  let t3 := open_repair_index index data m in
   let offsets := fsize (t_index t3) in
   if offsets <? 6 then Err E_MODEL else
   let buf0 := read_over (repeat 0 6) (fbytes (t_index t3)) 0 in
@@ -483,6 +488,10 @@ Definition open_table (index : file) (data : list (N * file)) (m : option meta) 
   let t11 := w_meta t10 (t_mcur t10) (t_mcur t10) in
   let t12 := w_counters t11 ((t_offset t11 + (offsets' / 6 - 1)) mod two64) (t_offset t11) (t_hidden t11)
                         (efile last') (t_tail t11) csize' in
+  let t12 := if clamp && (t_items t12 <? t_hidden t12)
+             then (let a := set_vtail t12 (t_items t12) true in
+                   w_counters a (t_items a) (t_offset a) (t_items a) (t_head a) (t_tail a) (t_headbytes a))
+             else t12 in
   let t13 := release_after t12 (t_head t12) true in
   let t14 := release_before t13 (t_tail t13) true in
   do t15 <- preopen t14;
